@@ -39,6 +39,10 @@ func nasConstructors(ctx *Ctx, tab *refnas.Table) {
 		if mand[0][0] != t.EPD || mand[hdr][0] != t.MsgType {
 			r.Violate("constructor/"+name+"/header", cs, fmt.Sprintf("EPD %#x message type %#x", mand[0][0], mand[hdr][0]), nil)
 		}
+		if t.EPD == 0x7e && b[1] != 0x00 {
+			// a plain 5GMM message: security header type 0000 and the spare half octet 0000 (TS 24.501 9.3, 9.5)
+			r.Violate("constructor/"+name+"/second-octet", cs, fmt.Sprintf("octet 2 is %#x, a plain 5GMM message has 00 there", b[1]), nil)
+		}
 		opts = map[string][]byte{}
 		for _, o := range ov {
 			if _, dup := opts[t.Optional[o.Idx].IE]; dup {
@@ -263,6 +267,12 @@ func nasConstructors(ctx *Ctx, tab *refnas.Table) {
 			allowed := map[string]bool{"PduSessionID2Value": true}
 			if kind == "release-complete" {
 				allowed["RequestType"], allowed["SNSSAI"], allowed["DNN"] = true, true, true
+			}
+			if kind == "release-complete" {
+				// ... and all of those it was given
+				want("ULNASTransport", "request-type", cs, opts["RequestType"], []byte{1})
+				want("ULNASTransport", "DNN", cs, opts["DNN"], append([]byte{8}, []byte("internet")...))
+				want("ULNASTransport", "S-NSSAI", cs, opts["SNSSAI"], []byte{1, 1, 2, 3})
 			}
 			for ie := range opts {
 				if !allowed[ie] {
